@@ -1018,7 +1018,14 @@ func ffCtxBytes(kind string, es []ffEntry) []byte {
 		c, n := decodeInto(p, bs[1:])
 		return c == "ok" && n == len(bs)-1 && ffShowFmtPkg(p) == want
 	}
-	if bs, ok := ffSpecEncFmt(row, wide, es); ok && try(bs) {
+	hasBlob := false
+	for _, e := range es {
+		if e.dataType == byte(asetypes.BLOB) {
+			hasBlob = true
+		}
+	}
+	// without a BLOB column the format is ALWAYS the TDS layout, whatever the reader makes of it
+	if bs, ok := ffSpecEncFmt(row, wide, es); ok && (!hasBlob || try(bs)) {
 		return bs
 	}
 	bs := ffAsReadFmt(row, wide, es)
@@ -1609,8 +1616,12 @@ func ffValueTypes() []byte {
 
 func ffRandCol(rng *rand.Rand, t byte, n int, mode int, colStatus bool) ffCol {
 	c := ffCol{e: ffPlain(t, ffText(rng, rng.Intn(6)))}
+	// the format status is a bit set: the column-status bit (0x08) alone and combined with the other bits
+	// (hidden 0x01, key 0x02, version 0x04, updatable 0x10, null allowed 0x20, identity 0x40, padchar 0x80)
+	other := uint64([]int{0, 0, 0x20, 0x01, 0x10, 0x30, 0xF7}[rng.Intn(7)])
+	c.e.status = other
 	if colStatus {
-		c.e.status = 8
+		c.e.status = 8 | other
 		c.status = uint8([]int{0, 1, 2, 255}[rng.Intn(4)])
 	}
 	if ffShape(t) == 't' {
@@ -1632,8 +1643,8 @@ func ffRandCol(rng *rand.Rand, t byte, n int, mode int, colStatus bool) ffCol {
 	return c
 }
 
-// ffRowFields turns columns into the canonical field list by letting the real reader decode the
-// layout bytes; "" if it does not decode or if the independent encoder does not reproduce it
+// ffRowFields turns columns into the canonical field list with the independent decoder; "" if the
+// layout is outside the reference codec's domain or not a fixpoint of reference decode / encode
 // (a value the value codec does not map back exactly: C04/C05's domain).
 func ffRowFields(kind, fmtKind string, cols []ffCol, needEnc bool) string {
 	tok := byte(tds.TDS_PARAMS)
@@ -1646,38 +1657,30 @@ func ffRowFields(kind, fmtKind string, cols []ffCol, needEnc bool) string {
 		es[i] = c.e
 		c.wire(w)
 	}
-	show := func(ctx, body []byte) string {
-		p, e := lookupWithCtx(tok, ctx)
-		if e != "" {
-			return ""
-		}
-		c, n := decodeInto(p, body)
-		if c != "ok" || n != len(body) {
-			return ""
-		}
-		return ffShowRow(kind, p)
-	}
+	// The canonical field list comes from the INDEPENDENT decoder (reference layout + reference value
+	// codec), never from the code under test: a case the real reader or writer mishandles must stay in
+	// the stream and be judged, not drop out of it.
 	ctx := ffCtxBytes(fmtKind, es)
-	shown := show(ctx, w.b)
-	if shown == "" {
-		return ""
+	shown, ok := ffSpecDecRow(kind, append([]byte{tok}, w.b...), ctx)
+	if !ok {
+		return "" // outside the reference codec's domain
 	}
 	f := strings.Fields(shown)[1:]
 	sp, ok := ffSpecEncRow(tok, f)
-	if !ok || show(ctx, sp[1:]) != shown {
+	if !ok {
 		return ""
 	}
+	if sd, ok := ffSpecDecRow(kind, sp, ctx); !ok || sd != shown {
+		return "" // the reference encoder does not reproduce the reference decoder's reading (value fixpoints only)
+	}
 	if needEnc {
-		p, ok := ffBuildRow(kind, f)
-		if !ok {
+		// the client leg: values a client can pass. The library's NULL decimal object (`decnull`, what
+		// GoValue returns for zero-length MONEYN/DECN/NUMN) is not one: database/sql hands over nil instead
+		// (NullDecimal.Value), and Bytes panics on it (recorded with C04 as a quirk outside the property).
+		if strings.Contains(shown, "decnull") {
 			return ""
 		}
-		e := encodePkg(p)
-		if !strings.HasPrefix(e, "ok ") {
-			return ""
-		}
-		// … and that the reference value decoder maps back (client leg, SpecDecCtx)
-		if sd, ok := ffSpecDecRow(kind, unhx(e[3:]), ctx); !ok || sd != shown {
+		if _, ok := ffBuildRow(kind, f); !ok {
 			return ""
 		}
 	}
